@@ -184,7 +184,9 @@ class Env:
         self.account = Account.from_dict(self.ledger, Wallet(), {
             'seed': 'carbon smart garage balance margin twelve chest sword toast envelope bottom stomach absent'})
         loop.run_until_complete(self.account.ensure_address_gap())
-        self.addresses = loop.run_until_complete(self.account.receiving.get_addresses())
+        # receiving AND change addresses: the same derivation index exists on both chains
+        self.addresses = (loop.run_until_complete(self.account.receiving.get_addresses())[:8] +
+                          loop.run_until_complete(self.account.change.get_addresses()))
         self.hashes = [self.ledger.address_to_hash160(a) for a in self.addresses]
         seed = Mnemonic.mnemonic_to_seed('carbon smart garage balance margin twelve chest sword toast envelope bottom '
                                          'stomach absent', '')
@@ -209,8 +211,10 @@ def check_input_signatures(run, model, env, rng, idx):
     n_in = rng.choice([1, 1, 2, 3, 5, rng.randrange(1, 21)])
     n_out = rng.choice([1, 2, 3, rng.randrange(1, 12)])
     ins, spent = [], []
-    for _ in range(n_in):
+    for j in range(n_in):
         pkh = rng.choice(env.hashes)
+        if n_in >= 2 and j < 2 and rng.random() < 0.5:
+            pkh = env.hashes[0] if j == 0 else env.hashes[8]     # receiving #0 and change #0 in one session
         txo = funding_output(rng, rng.randrange(10 ** 5, 10 ** 10), pkh, rng.choice([0, 0, 1, 2, 7]))
         ins.append(Input.spend(txo))
         spent.append(pkh)
@@ -336,6 +340,17 @@ def check_channel_signature(run, model, env, rng, idx, kind='claim'):
     run.case(case, nontrivial=True, sample=(idx < 2))
     run.count('channel-signature:' + kind)
     ok = txo.is_signed_by(channel, env.ledger)
+    # the same object as it comes back from the wire (what every other node sees)
+    try:
+        wire_txo = Transaction(raw).outputs[pos]
+        wire_ok = bool(wire_txo.is_signed_by(channel, env.ledger))
+        wire_err = None
+    except Exception as e:  # noqa
+        wire_ok, wire_err = False, f'{type(e).__name__}: {e}'
+    if not wire_ok:
+        run.violation(case, 'a channel-signed object no longer validates after a round trip through the raw '
+                            f'transaction bytes ({wire_err})', signature={'kind': 'channel-signature-wire', 'raw': raw.hex()[:64]})
+        return
     # independent recomputation from the raw bytes
     script = ptx['outs'][pos]['script']
     if kind == 'support':
